@@ -3,7 +3,9 @@ package checks
 import (
 	"bytes"
 	"context"
+
 	"fmt"
+	"github.com/jackc/pgx/v5/pgtype"
 	"sort"
 	"strings"
 
@@ -192,6 +194,27 @@ func (k c08case) sig() string {
 func (ch c08) Run(c *core.Ctx) {
 	env := hs.Start(hs.Parse, wire.MessageBufferSize(1<<22))
 	defer env.Stop()
+	// a second server in the same process whose connections decode int8 through a codec of their own
+	// ("amount:<n>"); its connections come and go between the cases: what it registered is its own business
+	envX := hs.Start(hs.Parse, wire.ExtendTypes(func(m *pgtype.Map) {
+		m.RegisterType(&pgtype.Type{Name: "int8", OID: pgtype.Int8OID, Codec: c14amount{}})
+	}))
+	defer envX.Stop()
+	other := func() {
+		prog := &hs.Prog{Stmts: []*hs.Stmt{{ID: "x", Params: []oid.Oid{oid.T_int8}, Ops: []hs.Op{{K: "complete", Tag: "OK"}}}}}
+		sess := &hs.Sess{Default: func(string) *hs.Prog { return prog }}
+		sess.OnExec = func(ctx context.Context, _ *hs.Stmt, _ wire.DataWriter, params []wire.Parameter) {
+			for _, p := range params {
+				p.Scan(uint32(oid.T_int8))
+			}
+		}
+		cl := hs.NewClient(envX.Dial(sess))
+		if cl.StartupOK("other") == nil {
+			cl.Step(append(append(append(pg.Parse("", "x", nil), pg.Bind("", "", nil, [][]byte{[]byte("42")}, nil)...), pg.Execute("", 0)...), pg.Sync()...))
+			cl.Finish()
+			c.Count("connections_of_a_second_server_with_its_own_codec", 1)
+		}
+	}
 	n := 1300
 	if c.Tier == "thorough" {
 		n = 32000
@@ -201,6 +224,9 @@ func (ch c08) Run(c *core.Ctx) {
 			continue
 		}
 		rng := core.NewRng(c.Seed, "C08", c.Batch, i)
+		if i%20 == 0 {
+			other()
+		}
 		ch.runCase(c, env, c08gen(rng, c.Tier == "thorough"), i)
 		if i%4 == 0 {
 			ch.multiBind(c, env, rng)
